@@ -51,7 +51,7 @@ type vC05Writer struct {
 	id        int
 	kind      string
 	parg      int
-	st        string // idle | begun | computed | failed | committed | errret | done
+	st        string // idle | begun | computed | failed | committed | errored | done
 	release   chan struct{}
 	started   bool
 	lastErr   error // error returned by the last run of the update callback (observed, not decided, by the harness)
@@ -170,7 +170,7 @@ func (h *vC05Harness) run(w *vC05Writer) {
 		if w.retErr == nil {
 			w.st = "committed"
 		} else {
-			w.st = "errret"
+			w.st = "errored"
 		}
 	}
 }
@@ -543,10 +543,10 @@ func (h *vC05Harness) replay(tw *vTraceWriter, bi int, b vC05Beh) (aborted bool)
 			switch w.st {
 			case "failed":
 				h.run(w) // releases the gate: the error return path runs
-				if w.st == "errret" || w.st == "committed" {
+				if w.st == "errored" || w.st == "committed" {
 					w.st, w.delivered = "done", true
 				}
-			case "committed", "errret":
+			case "committed", "errored":
 				w.st, w.delivered = "done", true
 			default:
 				return abort(fmt.Sprintf("step %d Ack(%d): writer is %s", si, wi, w.st))
@@ -554,7 +554,7 @@ func (h *vC05Harness) replay(tw *vTraceWriter, bi int, b vC05Beh) (aborted bool)
 		default:
 			t.Fatalf("VERIF-FATAL C05: unknown action %q", st.A)
 		}
-		if w.st == "committed" || w.st == "errret" || w.st == "done" {
+		if w.st == "committed" || w.st == "errored" || w.st == "done" {
 			h.registerReturn(w)
 		}
 		tw.Emit(h.snapshot(vObj{"a": st.A, "w": wi, "k": w.kind, "p": w.parg, "att": w.cbRuns, "exp": st.E}))
